@@ -1,100 +1,108 @@
 (* C05/Proofs.v - the engine with the code-level heap observes exactly what the engine with the
-   specification's store observes, for every history; corollaries that spell out the clauses
-   of the property. *)
+   specification's store observes, for every history. *)
 From Coq Require Import NArith List Bool Lia.
-From Morfuse Require Import Base.Arr Base.ListX C05.Model C05.Spec C05.ProofsCells C05.ProofsHeap.
+From Morfuse Require Import Base.Arr Base.ListX C05.Model C05.Spec C05.ProofsCells C05.ProofsLib C05.ProofsHeap.
 Import ListNotations.
 Local Open Scope N_scope.
 
-Definition m_step := step_op heap vm_end vm_kill call_begin call_finish thread_alive
+Definition m_step := step_op heap vm_end vm_kill vm_kill_exec spawn spawned call_begin call_finish thread_alive
                              rec_copy rec_reserve rec_move rec_destroy rec_assign rec_massign heap_reset heap_obs.
-Definition s_step := step_op store s_end s_kill s_begin s_finish s_alive
+Definition s_step := step_op store s_end s_kill s_kill s_spawn s_spawned s_begin s_finish s_alive
                              s_copy s_same s_same s_destroy s_assign s_massign s_reset s_obs.
-Definition m_from := run_from heap vm_end vm_kill call_begin call_finish thread_alive
+Definition m_from := run_from heap vm_end vm_kill vm_kill_exec spawn spawned call_begin call_finish thread_alive
                               rec_copy rec_reserve rec_move rec_destroy rec_assign rec_massign heap_reset heap_obs.
-Definition s_from := run_from store s_end s_kill s_begin s_finish s_alive
+Definition s_from := run_from store s_end s_kill s_kill s_spawn s_spawned s_begin s_finish s_alive
                               s_copy s_same s_same s_destroy s_assign s_massign s_reset s_obs.
 
+Definition m_run_st := run_st heap vm_end vm_kill_exec spawn spawned.
+Definition s_run_st := run_st store s_end s_kill s_spawn s_spawned.
+Definition m_resume := resume heap vm_end vm_kill vm_kill_exec spawn spawned.
+Definition s_resume := resume store s_end s_kill s_kill s_spawn s_spawned.
+
 (* ---- the scheduler does the same with both stores --------------------------------------------- *)
-Section Sim.
-  Variable Rel : heap -> store -> Prop.
-  Hypothesis Rel_end : forall t r h s, Rel h s -> Rel (vm_end t r h) (s_end t r s).
-  Hypothesis Rel_kill : forall t h s, Rel h s -> Rel (vm_kill t h) (s_kill t s).
+Lemma run_simple_sim sc h s t steps f : R h s ->
+  fst (run_simple heap vm_end vm_kill_exec sc h t steps f) = fst (run_simple store s_end s_kill sc s t steps f) /\
+  R (snd (run_simple heap vm_end vm_kill_exec sc h t steps f)) (snd (run_simple store s_end s_kill sc s t steps f)).
+Proof.
+  intro HR. unfold run_simple.
+  destruct steps as [|[d|d] rest]; cbn [fst snd]; auto.
+  destruct f as [[d|j|]| | |d|d| | |n|]; cbn [fst snd]; split; try reflexivity; try exact HR;
+    try (now apply vm_end_R); now apply vm_kill_exec_R.
+Qed.
 
-  Lemma run_main_sim sc h s t steps f : Rel h s ->
-    fst (run_main heap vm_end sc h t steps f) = fst (run_main store s_end sc s t steps f) /\
-    Rel (snd (run_main heap vm_end sc h t steps f)) (snd (run_main store s_end sc s t steps f)).
-  Proof.
-    intro HR. unfold run_main.
-    destruct steps as [|[d|d] rest]; cbn [fst snd]; auto.
-    destruct f as [[d|j]| | |d|d|]; cbn [fst snd]; auto.
-  Qed.
+Lemma run_st_sim subs : forall sc h s t pre post f, R h s ->
+  fst (m_run_st sc h t pre subs post f) = fst (s_run_st sc s t pre subs post f) /\
+  R (snd (m_run_st sc h t pre subs post f)) (snd (s_run_st sc s t pre subs post f)).
+Proof.
+  unfold m_run_st, s_run_st.
+  induction subs as [|l more IH]; intros sc h s t pre post f HR; cbn [run_st].
+  - destruct pre as [|[d|d] rest]; cbn [fst snd]; auto. now apply run_simple_sim.
+  - destruct pre as [|[d|d] rest]; cbn [fst snd]; auto.
+    destruct (spawn_R t h s HR) as [HR1 Ec].
+    destruct (spawn t h) as [h1 c]. destruct (s_spawn t s) as [s1 c']. cbn [fst snd] in *. subst c'.
+    destruct (IH sc h1 s1 c (lpre l) (lpost l) (resolve [] (lfin l)) HR1) as [E1 HR2].
+    destruct (run_st heap vm_end vm_kill_exec spawn spawned sc h1 c (lpre l) more (lpost l) (resolve [] (lfin l))) as [sa h2].
+    destruct (run_st store s_end s_kill s_spawn s_spawned sc s1 c (lpre l) more (lpost l) (resolve [] (lfin l))) as [sb s2].
+    cbn [fst snd] in *. subst sb.
+    apply run_simple_sim. now apply spawned_R.
+Qed.
 
-  Lemma run_thr_sim sc h s th : Rel h s ->
-    fst (run_thr heap vm_end vm_kill sc h th) = fst (run_thr store s_end s_kill sc s th) /\
-    Rel (snd (run_thr heap vm_end vm_kill sc h th)) (snd (run_thr store s_end s_kill sc s th)).
-  Proof.
-    intro HR. destruct th as [t steps f|t [|]]; cbn [run_thr].
-    - now apply run_main_sim.
-    - cbn [fst snd]. auto.
-    - destruct (lookup t (paused sc)) as [[steps f]|]; cbn [fst snd]; auto.
-  Qed.
+Lemma run_thr_sim sc h s th : R h s ->
+  fst (run_thr heap vm_end vm_kill vm_kill_exec spawn spawned sc h th) = fst (run_thr store s_end s_kill s_kill s_spawn s_spawned sc s th) /\
+  R (snd (run_thr heap vm_end vm_kill vm_kill_exec spawn spawned sc h th)) (snd (run_thr store s_end s_kill s_kill s_spawn s_spawned sc s th)).
+Proof.
+  intro HR. destruct th as [t ts|t [|]]; cbn [run_thr].
+  - apply (run_st_sim (tsubs ts) sc h s t (tpre ts) (tpost ts) (tfin ts) HR).
+  - cbn [fst snd]. split; [reflexivity|]. now apply vm_kill_R.
+  - destruct (lookup t (paused sc)) as [ts|]; cbn [fst snd]; auto.
+Qed.
 
-  Lemma resume_sim fuel : forall sc h s, Rel h s ->
-    fst (fst (resume heap vm_end vm_kill fuel sc h)) = fst (fst (resume store s_end s_kill fuel sc s)) /\
-    snd (resume heap vm_end vm_kill fuel sc h) = snd (resume store s_end s_kill fuel sc s) /\
-    Rel (snd (fst (resume heap vm_end vm_kill fuel sc h))) (snd (fst (resume store s_end s_kill fuel sc s))).
-  Proof.
-    induction fuel as [|fuel IH]; intros sc h s HR; cbn [resume].
-    - destruct (pend sc) as [|x r]; cbn [fst snd]; auto.
-      destruct (frame sc <? wdue (min_w x r)); cbn [fst snd]; auto.
-    - destruct (pend sc) as [|x r]; cbn [fst snd]; auto.
-      destruct (frame sc <? wdue (min_w x r)); cbn [fst snd]; auto.
-      set (sc1 := mkSched (remove_w (wseq (min_w x r)) (x :: r)) (paused sc) (frame sc) (clock sc) (sseq sc)).
-      destruct (run_thr_sim sc1 h s (wthr (min_w x r)) HR) as [E1 E2].
-      destruct (run_thr heap vm_end vm_kill sc1 h (wthr (min_w x r))) as [sa ha].
-      destruct (run_thr store s_end s_kill sc1 s (wthr (min_w x r))) as [sb sb']. cbn [fst snd] in *. subst sb.
-      now apply IH.
-  Qed.
-End Sim.
+Lemma resume_sim fuel : forall sc h s, R h s ->
+  fst (fst (m_resume fuel sc h)) = fst (fst (s_resume fuel sc s)) /\
+  snd (m_resume fuel sc h) = snd (s_resume fuel sc s) /\
+  R (snd (fst (m_resume fuel sc h))) (snd (fst (s_resume fuel sc s))).
+Proof.
+  unfold m_resume, s_resume.
+  induction fuel as [|fuel IH]; intros sc h s HR; cbn [resume].
+  - destruct (pend sc) as [|x r]; cbn [fst snd]; auto.
+    destruct (frame sc <? wdue (min_w x r)); cbn [fst snd]; auto.
+  - destruct (pend sc) as [|x r]; cbn [fst snd]; auto.
+    destruct (frame sc <? wdue (min_w x r)); cbn [fst snd]; auto.
+    set (sc1 := mkSched (remove_w (wseq (min_w x r)) (x :: r)) (paused sc) (frame sc) (clock sc) (sseq sc)).
+    destruct (run_thr_sim sc1 h s (wthr (min_w x r)) HR) as [E1 E2].
+    destruct (run_thr heap vm_end vm_kill vm_kill_exec spawn spawned sc1 h (wthr (min_w x r))) as [sa ha].
+    destruct (run_thr store s_end s_kill s_kill s_spawn s_spawned sc1 s (wthr (min_w x r))) as [sb sb']. cbn [fst snd] in *. subst sb.
+    now apply IH.
+Qed.
 
 (* ---- one host operation ------------------------------------------------------------------------ *)
-Lemma mk_obs_eq c sc h s ok : R h s [] -> mk_obs heap heap_obs c sc h ok = mk_obs store s_obs c sc s ok.
+Lemma mk_obs_eq c sc h s ok : R h s -> mk_obs heap heap_obs c sc h ok = mk_obs store s_obs c sc s ok.
 Proof. intro HR. unfold mk_obs. now rewrite (obs_eq h s HR). Qed.
 
-Theorem step_sim sc h s o : R h s [] ->
+Theorem step_sim sc h s o : R h s ->
   fst (fst (m_step (sc, h) o)) = fst (fst (s_step (sc, s) o)) /\
   snd (m_step (sc, h) o) = snd (s_step (sc, s) o) /\
-  R (snd (fst (m_step (sc, h) o))) (snd (fst (s_step (sc, s) o))) [].
+  R (snd (fst (m_step (sc, h) o))) (snd (fst (s_step (sc, s) o))).
 Proof.
-  intro HR. unfold m_step, s_step. destruct o as [lbl np steps f args|r|r|r|r|a b|a b|dt| |]; cbn [step_op].
+  intro HR. unfold m_step, s_step. destruct o as [lbl np prog args|r|r|r|r|a b|a b|dt| |]; cbn [step_op].
   - (* the host call *)
+    destruct (call_begin_R lbl h s HR) as [HR1 Et].
+    destruct (call_begin lbl h) as [h1 t]. destruct (s_begin lbl s) as [s1 t']. cbn [fst snd] in *. subst t'.
     destruct lbl.
-    + pose proof (call_begin_R h s HR) as HB. cbn zeta in HB. destruct HB as (HR1 & Et & _).
-      destruct (call_begin true h) as [h1 t] eqn:Eb. destruct (s_begin true s) as [s1 t'] eqn:Es.
-      cbn [fst snd] in *. subst t'.
-      set (Rel := fun h s => R h s [(tmp h1, SCall t)] /\ tmp h = tmp h1).
-      assert (Rel_end : forall t0 r h0 s0, Rel h0 s0 -> Rel (vm_end t0 r h0) (s_end t0 r s0)).
-      { intros t0 r h0 s0 [H1 H2]. destruct (vm_end_R t0 r h0 s0 _ H1) as [H3 H4]. split; [exact H3|congruence]. }
-      assert (Rel_kill : forall t0 h0 s0, Rel h0 s0 -> Rel (vm_kill t0 h0) (s_kill t0 s0)).
-      { intros t0 h0 s0 [H1 H2]. destruct (vm_kill_R t0 h0 s0 _ H1) as [H3 H4]. split; [exact H3|congruence]. }
-      assert (HRel1 : Rel h1 s1) by (split; [exact HR1|reflexivity]).
-      destruct (run_main_sim Rel Rel_end sc h1 s1 t steps (resolve (bind np args) f) HRel1) as [E1 E2].
-      destruct (run_main heap vm_end sc h1 t steps (resolve (bind np args) f)) as [sa h2].
-      destruct (run_main store s_end sc s1 t steps (resolve (bind np args) f)) as [sb s2].
+    + set (l0 := match prog with l :: _ => l | [] => mkLevel [] [] FFall end).
+      destruct (run_st_sim (tl prog) sc h1 s1 t (lpre l0) (lpost l0) (resolve (bind np args) (lfin l0)) HR1) as [E1 E2].
+      unfold m_run_st, s_run_st in *.
+      destruct (run_st heap vm_end vm_kill_exec spawn spawned sc h1 t (lpre l0) (tl prog) (lpost l0) (resolve (bind np args) (lfin l0))) as [sa h2].
+      destruct (run_st store s_end s_kill s_spawn s_spawned sc s1 t (lpre l0) (tl prog) (lpost l0) (resolve (bind np args) (lfin l0))) as [sb s2].
       cbn [fst snd] in *. subst sb.
-      destruct (resume_sim Rel Rel_end Rel_kill (weight sa) sa h2 s2 E2) as (E3 & E4 & E5).
-      destruct (resume heap vm_end vm_kill (weight sa) sa h2) as [[sc3 h3] ok3].
-      destruct (resume store s_end s_kill (weight sa) sa s2) as [[sc3' s3] ok3'].
-      cbn [fst snd] in *. subst sc3' ok3'. destruct E5 as [HR3 Etmp].
-      rewrite <- Etmp in HR3.
-      pose proof (call_finish_R t args h3 s3 HR3) as HR4.
+      destruct (resume_sim (weight sa) sa h2 s2 E2) as (E3 & E4 & E5). unfold m_resume, s_resume in *.
+      destruct (resume heap vm_end vm_kill vm_kill_exec spawn spawned (weight sa) sa h2) as [[sc3 h3] ok3].
+      destruct (resume store s_end s_kill s_kill s_spawn s_spawned (weight sa) sa s2) as [[sc3' s3] ok3'].
+      cbn [fst snd] in *. subst sc3' ok3'.
+      pose proof (call_finish_R t args h3 s3 E5) as HR4.
       split; [reflexivity|]. split; [|exact HR4].
-      rewrite (alive_eq t _ _ _ HR4). now apply mk_obs_eq.
-    + destruct (call_begin_nolabel_R h s HR) as [HR1 Et].
-      destruct (call_begin false h) as [h1 t] eqn:Eb. destruct (s_begin false s) as [s1 t'] eqn:Es.
-      cbn [fst snd] in *. subst t'.
-      pose proof (call_finish_nolabel_R t args h1 s1 HR1) as HR2.
+      rewrite (alive_eq t _ _ HR4). now apply mk_obs_eq.
+    + pose proof (call_finish_nolabel_R t args h1 s1 HR1) as HR2.
       split; [reflexivity|]. split; [now apply mk_obs_eq|exact HR2].
   - pose proof (rec_copy_R r h s HR) as H. split; [reflexivity|]. split; [now apply mk_obs_eq|exact H].
   - pose proof (rec_reserve_R r h s HR) as H. split; [reflexivity|]. split; [now apply mk_obs_eq|exact H].
@@ -104,20 +112,15 @@ Proof.
   - pose proof (rec_massign_R a b h s HR) as H. split; [reflexivity|]. split; [now apply mk_obs_eq|exact H].
   - split; [reflexivity|]. split; [now apply mk_obs_eq|exact HR].
   - set (sc1 := mkSched (pend sc) (paused sc) (clock sc) (clock sc) (sseq sc)).
-    set (Rel := fun h s => R h s []).
-    assert (Rel_end : forall t0 r h0 s0, Rel h0 s0 -> Rel (vm_end t0 r h0) (s_end t0 r s0))
-      by (intros t0 r h0 s0 H1; now destruct (vm_end_R t0 r h0 s0 _ H1)).
-    assert (Rel_kill : forall t0 h0 s0, Rel h0 s0 -> Rel (vm_kill t0 h0) (s_kill t0 s0))
-      by (intros t0 h0 s0 H1; now destruct (vm_kill_R t0 h0 s0 _ H1)).
-    destruct (resume_sim Rel Rel_end Rel_kill (weight sc1) sc1 h s HR) as (E3 & E4 & E5).
-    destruct (resume heap vm_end vm_kill (weight sc1) sc1 h) as [[sc3 h3] ok3].
-    destruct (resume store s_end s_kill (weight sc1) sc1 s) as [[sc3' s3] ok3'].
+    destruct (resume_sim (weight sc1) sc1 h s HR) as (E3 & E4 & E5). unfold m_resume, s_resume in *.
+    destruct (resume heap vm_end vm_kill vm_kill_exec spawn spawned (weight sc1) sc1 h) as [[sc3 h3] ok3].
+    destruct (resume store s_end s_kill s_kill s_spawn s_spawned (weight sc1) sc1 s) as [[sc3' s3] ok3'].
     cbn [fst snd] in *. subst sc3' ok3'.
     split; [reflexivity|]. split; [now apply mk_obs_eq|exact E5].
-  - pose proof (heap_reset_R h s HR) as H. split; [reflexivity|]. split; [now apply mk_obs_eq|exact H].
+  - destruct (heap_reset_R h s HR) as [H _]. split; [reflexivity|]. split; [now apply mk_obs_eq|exact H].
 Qed.
 
-Lemma from_sim ops : forall sc h s, R h s [] -> m_from (sc, h) ops = s_from (sc, s) ops.
+Lemma from_sim ops : forall sc h s, R h s -> m_from (sc, h) ops = s_from (sc, s) ops.
 Proof.
   induction ops as [|o ops IH]; intros sc h s HR; [reflexivity|].
   unfold m_from, s_from. cbn [run_from]. fold m_from s_from. fold (m_step (sc, h) o) (s_step (sc, s) o).
